@@ -350,12 +350,36 @@ pub fn run(c: &Case) -> Outcome {
     Ok(obs)
 }
 
+/// bounded-exhaustive scope: every digraph on 1..=3 nodes and every undirected graph on 1..=3 nodes
+/// (loops included) with every assignment of the costs {0, 1, 5} to its edges, x encoding x source x goal
+const ENUM_P: u64 = 6 * 3 * 3;
+fn enum_count(_tier: Tier) -> u64 {
+    small_weighted_count(3, 3) * ENUM_P
+}
+fn enum_make(_tier: Tier, i: u64) -> Case {
+    let (dir, n, code) = small_weighted(i / ENUM_P, 3, 3).expect("index within the scope");
+    let p = i % ENUM_P;
+    Case {
+        // weight(byte) = byte * 10 >> 8 with OPTS (0..=9): 0 -> 0, 26 -> 1, 128 -> 5
+        g: raw_quaternary(dir, n, code, [0, 26, 128]),
+        enc: (p % 6) as u8,
+        salt: (i % 251) as u8,
+        src: sel_for((p / 6) as usize % 3 % n, n),
+        goal: sel_for((p / 18) as usize % n, n),
+        goalset: if i % 4 == 0 { (i % 7) as u16 } else { 0 },
+        k: 1 + (i % 4) as u8,
+        hkind: (i % 3) as u8,
+        hvals: vec![(i % 5) as u8, (i % 3) as u8, (i % 2) as u8],
+        cost: (i % 4) as u8,
+    }
+}
+
 pub fn property() -> Property {
     Property {
         id: "C10",
-        rule: "random weighted multigraphs (1..=8 nodes quick, weights 0..=9 incl. zero edges/cycles, parallel edges, loops) in Graph / StableGraph+MatrixGraph with vacancies / GraphMap / Csr, cost types u32,i32,f64,f32 (floats are exact multiples of 0.25); dijkstra (no goal / goal), astar (single goal and goal sets; zero, exact and random admissible-inconsistent heuristics) and k_shortest_path (k 1..=5) compared with fixpoint distances and a dynamic programme over walks; non-trivial = some node unreachable and some direct edge beaten by a longer path; distinct by case fingerprint",
+        rule: "random weighted multigraphs (1..=8 nodes quick, weights 0..=9 incl. zero edges/cycles, parallel edges, loops) in Graph / StableGraph+MatrixGraph with vacancies / GraphMap / Csr, cost types u32,i32,f64,f32 (floats are exact multiples of 0.25); dijkstra (no goal / goal), astar (single goal and goal sets; zero, exact and random admissible-inconsistent heuristics) and k_shortest_path (k 1..=5) compared with fixpoint distances and a dynamic programme over walks; non-trivial = some node unreachable and some direct edge beaten by a longer path; distinct by case fingerprint; bounded-exhaustive sub-check: every directed / undirected graph on 1..=3 nodes (loops included) with every assignment of the costs {0,1,5} to its edges x 6 encodings x source x goal",
         assumptions: &["k-th walk cost oracle considers walks of at most k*n+1 edges (sufficient for non-negative costs)"],
         both_profiles: false,
-        subs: vec![sub("shortest/nonneg", 4_000_000, 60_000_000, strategy, run)],
+        subs: vec![sub("shortest/nonneg", 4_000_000, 60_000_000, strategy, run), sub_enum("shortest/all-small-weighted-graphs", enum_count, enum_make, run)],
     }
 }
